@@ -94,32 +94,38 @@ Theorem C05_refuted_negative_start_open :
   /\ compute_index 0 1 (Some (-1)) None None = 2 /\ py_index 0 1 (Some (-1)) None None = 0
   /\ axis_wrong 1 (Some (-1)) None (Some 1).
 Proof. vm_compute. repeat split; reflexivity. Qed.
+Print Assumptions C05_refuted_negative_start_open.
 (* a[2:] on n = 1: si - start wraps to 2^64-1, float -> int conversion is undefined (x86: -2147483647) *)
 Theorem C05_refuted_start_past_end :
   slice_len 1 (Some 2) None None = LenUB /\ py_len 1 (Some 2) None None = 0
   /\ slice_len 1 (Some 2) None (Some 1) = LenUB.
 Proof. vm_compute. repeat split; reflexivity. Qed.
+Print Assumptions C05_refuted_start_past_end.
 (* a[:-2] on n = 1: si + stop wraps, undefined conversion; Python: empty *)
 Theorem C05_refuted_stop_below_minus_n :
   slice_len 1 None (Some (-2)) None = LenUB /\ py_len 1 None (Some (-2)) None = 0
   /\ slice_len 1 None (Some (-2)) (Some 1) = LenUB.
 Proof. vm_compute. repeat split; reflexivity. Qed.
+Print Assumptions C05_refuted_stop_below_minus_n.
 (* a[1:0] on n = 1: |start - stop| instead of an empty slice *)
 Theorem C05_refuted_crossed_bounds :
   slice_len 1 (Some 1) (Some 0) None = Len 1 /\ py_len 1 (Some 1) (Some 0) None = 0
   /\ slice_len 1 (Some 1) (Some 0) (Some 1) = Len 1
   /\ slice_len 3 (Some 3) (Some 1) None = Len 2.
 Proof. vm_compute. repeat split; reflexivity. Qed.
+Print Assumptions C05_refuted_crossed_bounds.
 (* a[:1:-1] on n = 1: length min(stop,n) regardless of the sign of the step *)
 Theorem C05_refuted_open_start_negative_step :
   slice_len 1 None (Some 1) (Some (-1)) = Len 1 /\ py_len 1 None (Some 1) (Some (-1)) = 0.
 Proof. vm_compute. repeat split; reflexivity. Qed.
+Print Assumptions C05_refuted_open_start_negative_step.
 (* a[3:1:-1] on n = 5: right length, but the walk starts at stop-1 = 0 and leaves the array *)
 Theorem C05_refuted_negative_step_start :
   slice_len 5 (Some 3) (Some 1) (Some (-1)) = Len 2 /\ py_len 5 (Some 3) (Some 1) (Some (-1)) = 2
   /\ compute_index 0 5 (Some 3) (Some 1) (Some (-1)) = 0 /\ py_index 0 5 (Some 3) (Some 1) (Some (-1)) = 3
   /\ compute_index 1 5 (Some 3) (Some 1) (Some (-1)) = 2 ^ 64 - 1.
 Proof. vm_compute. repeat split; reflexivity. Qed.
+Print Assumptions C05_refuted_negative_step_start.
 (* above 2^24 the length goes through binary32: a[:] on extent 2^24+1 has length 2^24; from 2^31-64 on the
    conversion to int is undefined *)
 Theorem C05_refuted_float_len :
@@ -127,6 +133,7 @@ Theorem C05_refuted_float_len :
   /\ slice_len (2 ^ 24 + 3) None None (Some 1) = Len (2 ^ 24 + 4)
   /\ slice_len (2 ^ 31 - 64) None None None = LenUB.
 Proof. vm_compute. repeat split; reflexivity. Qed.
+Print Assumptions C05_refuted_float_len.
 (* the full statement over the property's own box is false: 5 127 of 7 588 inputs *)
 Theorem C05_refuted_on_box :
   count (on_axis (fun n a b c => negb (model_axis_ok n a b c))) (box_axis 6) = 5127
@@ -158,6 +165,16 @@ Proof.
   destruct (multi_axis shape sls H) as [-> _]. split; reflexivity.
 Qed.
 Print Assumptions C05_encodings_agree_on_domain.
+
+(* view::slice(a, one slice): `nmtools_tuple{slices...}` copy-deduces, so the slice (1,3) reaches shape_slice as the two
+   integer parts a[1,3]; on a 1-d array that is not a well-formed index (dim - N_INT wraps, resize throws), while the
+   intended a[1:3] is inside the proved domain with Python's shape *)
+Theorem C05_refuted_single_range_view :
+  wf_slices [5] [SInt 1; SInt 3] = false
+  /\ multi_dom [5] [SRange (Some 1) (Some 3) None] = true
+  /\ py_shape [5] [SRange (Some 1) (Some 3) None] = [2].
+Proof. vm_compute. repeat split; reflexivity. Qed.
+Print Assumptions C05_refuted_single_range_view.
 
 (* ---------- non-vacuity ---------- *)
 Example C05_nonvacuous_axis :
